@@ -110,15 +110,31 @@ func genScenario(r *Rng, maxMsgs, maxRcpts int) *SmtpScenario {
 			m.To, m.Cc, m.Bcc = nil, nil, nil
 		}
 		m.EightBit = r.Chance(15)
+		if r.Chance(25) {
+			m.Charset = []string{"US-ASCII", "ISO-8859-1", "UTF-8", "windows-1252"}[r.Intn(4)]
+		}
 		if r.Chance(10) {
 			m.RenderFail = true
 			m.FailEarly = r.Bool()
 			if !m.FailEarly {
 				m.FailVia = []string{"", "seeker", "seeker-eof", "sign", "fs-gone"}[r.Intn(5)]
+				m.Signed = m.FailVia != "sign" && r.Chance(35)
 			}
 		}
 		if r.Chance(10) {
 			m.AttachBytes = []int{1, 100, 5000, 70000}[r.Intn(4)]
+		}
+		if r.Chance(12) && len(m.To) > 0 {
+			// the same mailbox more than once: again in To, and as a Cc or Bcc of the same message
+			dup := m.To[r.Intn(len(m.To))]
+			switch r.Intn(3) {
+			case 0:
+				m.To = append(m.To, dup)
+			case 1:
+				m.Cc = append(m.Cc, dup)
+			default:
+				m.Bcc = append(m.Bcc, dup)
+			}
 		}
 		m.ToViaAdd = len(m.To) > 1 && r.Chance(35)
 		if r.Chance(20) {
